@@ -755,6 +755,7 @@ pub struct RunStats {
     pub ranges_checked: u64,
     pub trace_hash: u64,
     pub max_passes: u64,
+    pub max_lookups: u64,
     pub codegen_invocations: u64,
     pub log: Vec<String>,
 }
@@ -861,6 +862,7 @@ pub fn execute(h: &History, seed_checks: usize, stats: &mut RunStats) -> Option<
     let r = execute_inner(h, seed_checks, stats);
     let ps = super::passwatch::uninstall();
     stats.max_passes = stats.max_passes.max(ps.max_passes as u64);
+    stats.max_lookups = stats.max_lookups.max(ps.max_lookups);
     stats.codegen_invocations += ps.invocations;
     disk::uninstall();
     env::set_cwd(None);
@@ -879,6 +881,21 @@ fn crash_found(c: &Crash, who: &str, method: &str, at: usize) -> Found {
             ),
             message: format!(
                 "{} server, {}: does not terminate, it keeps reading files ({})",
+                who, method, c.what
+            ),
+            at_event: at,
+        };
+    }
+    if c.what.contains(super::passwatch::LOOKUP_BUDGET_MARKER) {
+        return Found {
+            class: "nonterminating_expansion".into(),
+            sig: format!(
+                "nonterminating:lookups:{}:{}",
+                who,
+                method.rsplit('/').next().unwrap_or(method)
+            ),
+            message: format!(
+                "{} server, {}: does not terminate in any useful sense ({})",
                 who, method, c.what
             ),
             at_event: at,
@@ -2181,7 +2198,7 @@ fn stats_json(st: &RunStats, runs: u64) -> Value {
         "events": st.events, "buffer_events": st.buffer_events, "requests": st.requests,
         "fresh_servers": st.fresh_servers, "fresh_processes": st.fresh_processes, "comparisons": st.comparisons,
         "nonnull_answers": st.nonnull_answers, "tokens_checked": st.tokens_checked, "ranges_checked": st.ranges_checked,
-        "codegen_invocations": st.codegen_invocations, "max_passes": st.max_passes,
+        "codegen_invocations": st.codegen_invocations, "max_passes": st.max_passes, "max_lookups": st.max_lookups,
         "kinds": st.kinds, "pos_kinds": st.pos_kinds, "faults": st.faults,
     })
 }
@@ -2198,6 +2215,7 @@ fn merge_stats(t: &mut RunStats, a: &RunStats) {
     t.ranges_checked += a.ranges_checked;
     t.codegen_invocations += a.codegen_invocations;
     t.max_passes = t.max_passes.max(a.max_passes);
+    t.max_lookups = t.max_lookups.max(a.max_lookups);
     for (k, v) in &a.kinds {
         *t.kinds.entry(k.clone()).or_insert(0) += v;
     }
@@ -2349,6 +2367,7 @@ pub fn main(cli: &Cli) -> i32 {
     let mut pos_kinds = BTreeMap::new();
     let mut faults = BTreeMap::new();
     let mut max_passes = 0u64;
+    let mut max_lookups = 0u64;
     for s in &sup.stats {
         for key in [
             "runs",
@@ -2367,6 +2386,7 @@ pub fn main(cli: &Cli) -> i32 {
                 s.get(key).and_then(|x| x.as_u64()).unwrap_or(0);
         }
         max_passes = max_passes.max(s.get("max_passes").and_then(|x| x.as_u64()).unwrap_or(0));
+        max_lookups = max_lookups.max(s.get("max_lookups").and_then(|x| x.as_u64()).unwrap_or(0));
         add_u64(&mut kinds, s.get("kinds"));
         add_u64(&mut pos_kinds, s.get("pos_kinds"));
         add_u64(&mut faults, s.get("faults"));
@@ -2483,6 +2503,7 @@ pub fn main(cli: &Cli) -> i32 {
         ev.set(k, json!(v));
     }
     ev.set("max_passes_of_any_analysis", json!(max_passes));
+    ev.set("max_lookup_steps_in_one_pass", json!(max_lookups));
     ev.set("event_kinds", json!(kinds));
     ev.set("request_position_kinds", json!(pos_kinds));
     ev.set("fault_kinds_injected", json!(faults));
